@@ -81,7 +81,7 @@ PROPS = {
                "fault injection at the plugin boundary (operation table of the backend descriptor swapped for counting stubs around create): for each backend and each of init/encode/decode/reconstruct/fragments_needed, EVERY call position of that operation in a scripted workload (create, 3 encodes, 6 decodes with data loss, 5 reconstructs, 4 fragments_needed, destroy) fails once, plus shuffled scripts with random fault positions; "
                "oracle: public rc<0, ledger delta 0 right after the failing call (heap and dlopen), registry unchanged for init, the next identical call succeeds byte-exactly, ledger back to baseline after destroy; ASan+LSan underneath; non-trivial = every fault position; distinct = (config, operation, position)",
                exhaustive={"quick": True, "thorough": True},
-               exhaustive_scope="every call position of every backend operation in the scripted workload, for 7 configurations"),
+               exhaustive_scope="every call position of every backend operation in the scripted workload, for 14 configurations (incl. m > k, k = 1, k = m, k+m = 32)"),
     "C13": api("C13", "exploration",
                "case = one public call with an invalid argument (every entry point x dead/unknown descriptors {0,-1,INT_MAX,INT_MIN,never issued,destroyed} x NULL-argument subsets x counts {-1,0,INT_MIN} x fragment_len {0,1,79} x out-of-range destinations x bad backend ids), "
                "or one shape of the box backend x k,m in -1..33 x hd 0..7 x w (create refused, or full encode/decode/reconstruct/query/destroy cycle without faults); output pointers pre-poisoned; "
